@@ -133,7 +133,7 @@ func GosymH_C10_stream() {
 // the token lies inside the data stream (mathematically: no wrap-around), and whatever the verdict nothing
 // panics when the manifest is then used.
 func GosymH_C10_reject() {
-	nb := 1 + gosym_Choice("blocks", 2)
+	nb := 1 + gosym_Choice("blocks", gosym_Param("blocks", 2))
 	sizes := make([]int, nb)
 	total := uint64(0)
 	for i := range sizes {
